@@ -9,7 +9,9 @@ correct for ids 1..N and refuted otherwise (known finding gradient_noncontiguous
 HotSpot.calc: executable Gallina model (Mesh/HotSpot.v) + component theorems, tied by vm_compute correspondence.
 Mesh mapping and surface detection: relations on the implementation only.
 The relations below run on EVERY invocation and double as the failing-input search."""
+import json
 import math
+import os
 
 import numpy as np
 import pandas as pd
@@ -61,6 +63,27 @@ def _imports():
     import pylife.mesh.surface  # noqa: F401
 
 
+class time_limit:
+    """Bounds one call into the implementation (a mutated loop condition must not hang the check)."""
+
+    def __init__(self, seconds=90):
+        self.seconds = seconds
+
+    def _raise(self, *a):
+        raise TimeoutError('no result within %d s' % self.seconds)
+
+    def __enter__(self):
+        import signal
+        self.old = signal.signal(signal.SIGALRM, self._raise)
+        signal.alarm(self.seconds)
+
+    def __exit__(self, *a):
+        import signal
+        signal.alarm(0)
+        signal.signal(signal.SIGALRM, self.old)
+        return False
+
+
 def dy(x, k=1024):
     """Round to a dyadic rational (keeps the exact rational images in the certificates small)."""
     return round(x * k) / k
@@ -72,7 +95,8 @@ def run_gradient(acc, coords, elements, node_ids, elem_ids, values, row_order='b
     """Returns ('ok', {node_id: (gx, gy, gz)}) or (exception class name, message)."""
     df = mg.frame(coords, elements, node_ids, elem_ids, values, row_order=row_order, flip_levels=flip, rng=rng)
     try:
-        r = getattr(df, acc).gradient_of('f')
+        with time_limit():
+            r = getattr(df, acc).gradient_of('f')
     except Exception as e:   # noqa: BLE001
         return type(e).__name__, str(e)[:200]
     out = {}
@@ -311,21 +335,33 @@ def run_cert_scripts(name, items, chunk=6):
         else:
             redo.extend(idx)
     if redo:
-        res2 = common.coq_scratch_many([('%s_cert1_%d' % (name, i), text([i])) for i in redo], 600)
-        for i, (good, out) in zip(redo, res2):
-            (ok if good else bad).append(i)
-            if not good:
-                logs.append(out[-800:])
+        for attempt in range(3):          # a killed coqc (no "Error" in its output) is retried, not taken as a result
+            res2 = common.coq_scratch_many([('%s_cert1_%d' % (name, i), text([i])) for i in redo], 600)
+            again = []
+            for i, (good, out) in zip(redo, res2):
+                if good:
+                    ok.append(i)
+                elif 'Error' not in out and attempt < 2:
+                    again.append(i)
+                else:
+                    bad.append(i)
+                    logs.append(out[-800:])
+            redo = again
+            if not redo:
+                break
     return sorted(ok), sorted(bad), '\n'.join(logs[:3])
 
 
 # ------------------------------------------------------------------------------------------------ hot spots
 
 def run_hotspot(pairs, vals, frac, art=None, flip=False):
+    """frac=None: the documented default limit_frac = 0.9."""
     df = pd.DataFrame({'element_id': [p[0] for p in pairs], 'node_id': [p[1] for p in pairs],
                        'v': [float(v) for v in vals], 'x': 0.0, 'y': 0.0})
     df = df.set_index(['node_id', 'element_id'] if flip else ['element_id', 'node_id'])
-    r = df.hotspot.calc('v', frac) if art is None else df.hotspot.calc('v', frac, artefact_threshold=art)
+    kw = {} if art is None else {'artefact_threshold': art}
+    with time_limit(20):
+        r = df.hotspot.calc('v', **kw) if frac is None else df.hotspot.calc('v', frac, **kw)
     if not r.index.equals(df.index):
         raise AssertionError('hotspot result is not indexed like the mesh')
     return [int(x) for x in r.to_numpy()]
@@ -363,8 +399,18 @@ def hotspot_stage(res, rng, n_rand, n_mesh, n_float, stats):
     cases, terms = [], []
     nontriv = set()
     hist = {}
-    for c in range(n_rand + n_mesh):
-        if c < n_rand:
+    corpus = []
+    cdir = os.path.join(common.CORPUS, 'C19')
+    for f in sorted(os.listdir(cdir)) if os.path.isdir(cdir) else []:
+        d = json.load(open(os.path.join(cdir, f)))
+        if d.get('kind') == 'hotspot':
+            corpus.append(d)
+    res.cov['corpus_cases'] = len(corpus)
+    for c in range(-len(corpus), n_rand + n_mesh):
+        if c < 0:
+            d = corpus[c]
+            pairs, vals = [tuple(x) for x in d['rows']], d['values']
+        elif c < n_rand:
             pairs, vals = mg.random_entries(rng, max_el=rng.choice([3, 6, 10]), max_nd=rng.choice([4, 8, 12]),
                                             max_rows=rng.choice([8, 24, 40]))
         else:
@@ -373,10 +419,16 @@ def hotspot_stage(res, rng, n_rand, n_mesh, n_float, stats):
         p = rng.randint(0, q + 1) if rng.random() < 0.3 else rng.randint(q // 4, q)
         art = None if rng.random() < 0.8 else rng.randint(min(vals), max(vals) + 1)
         flip = rng.random() < 0.3
+        if c < 0:
+            p, q, art, flip = d['p'], d['q'], d['art'], False
         try:
             out = run_hotspot(pairs, vals, p / q, art, flip)
         except Exception as e:   # noqa: BLE001
             res.oblige('HotSpot.calc runs on %r' % ((pairs, vals, p, q, art),), False, repr(e))
+            res.violation(WHAT_HS, rows=[list(x) for x in pairs], values=vals, limit_frac=p / q, artefact_threshold=art,
+                          observed=repr(e), expected=mg.hotspot_spec(pairs, vals, p / q, art))
+            if isinstance(e, TimeoutError) and sum(1 for b in res.broken if 'HotSpot.calc runs' in b['obligation']) >= 3:
+                break
             continue
         cases.append((pairs, vals, p, q, art, flip, out))
         terms.append(hs_term(pairs, vals, p, q, art, out))
@@ -385,10 +437,10 @@ def hotspot_stage(res, rng, n_rand, n_mesh, n_float, stats):
         if k >= 2:
             nontriv.add(repr((pairs, vals, p, q, art)))
         # the property's own oracle on the same input (independent Python reference)
-        if art is None:
-            spec = mg.hotspot_spec(pairs, vals, p / q)
-            if spec != out:
-                res.violation(WHAT_HS, rows=[list(x) for x in pairs], values=vals, limit_frac=p / q, observed=out, expected=spec)
+        spec = mg.hotspot_spec(pairs, vals, p / q, art)
+        if spec != out:
+            res.violation(WHAT_HS, rows=[list(x) for x in pairs], values=vals, limit_frac=p / q, artefact_threshold=art,
+                          observed=out, expected=spec)
     bad, log = common.coq_compare('C19hs', HS_REQ, terms, shard=150)
     res.oblige('correspondence HotSpot model = HotSpot.calc on %d meshes' % len(terms), not bad,
                'disagreeing cases: %s\n%s' % ([cases[i][:5] for i in bad[:3]], log[-1500:]))
@@ -402,12 +454,21 @@ def hotspot_stage(res, rng, n_rand, n_mesh, n_float, stats):
     for _ in range(n_float):
         pairs, vals = mesh_entries(rng) if rng.random() < 0.5 else mg.random_entries(rng, 8, 10, 40)
         vals = [v * rng.choice([0.1, 1.0 / 3.0, 1e-3, 7.7]) + rng.choice([0.0, 0.0, 1e-9 * rng.random()]) for v in vals]
-        frac = rng.choice([0.9, 0.5, 0.75, 0.3, rng.uniform(0.05, 1.0)])
-        out = run_hotspot(pairs, vals, frac, None, rng.random() < 0.3)
-        spec = mg.hotspot_spec(pairs, vals, frac)
+        frac = rng.choice([None, 0.9, 0.5, 0.75, 0.3, rng.uniform(0.05, 1.0)])     # None = documented default 0.9
+        art = None if rng.random() < 0.8 else rng.choice(vals) + rng.choice([0.0, 1e-12, -1e-12])
+        spec = mg.hotspot_spec(pairs, vals, 0.9 if frac is None else frac, art)
         stats['hotspot_float'] = stats.get('hotspot_float', 0) + 1
+        try:
+            out = run_hotspot(pairs, vals, frac, art, rng.random() < 0.3)
+        except Exception as e:   # noqa: BLE001
+            out = repr(e)
+            if isinstance(e, TimeoutError):
+                nto = stats['hotspot_timeouts'] = stats.get('hotspot_timeouts', 0) + 1
+                if nto >= 2:
+                    res.violation(WHAT_HS, rows=[list(x) for x in pairs], values=vals, limit_frac=frac, artefact_threshold=art, observed=out, expected=spec)
+                    break
         if spec != out:
-            res.violation(WHAT_HS, rows=[list(x) for x in pairs], values=vals, limit_frac=frac, observed=out, expected=spec)
+            res.violation(WHAT_HS, rows=[list(x) for x in pairs], values=vals, limit_frac=frac, artefact_threshold=art, observed=out, expected=spec)
 
 
 # ------------------------------------------------------------------------------------------------ mapping, surface
@@ -428,8 +489,14 @@ def mapping_relations(res, rng, n, stats):
         if not three_d:
             src = src.drop(columns=['z'])
         # (a) mapping a mesh's field onto the same points returns the field
-        got = src.meshmapper.process(src, 'f')
         stats['map_identity'] = stats.get('map_identity', 0) + 1
+        try:
+            with time_limit():
+                got = src.meshmapper.process(src, 'f')
+        except Exception as e:   # noqa: BLE001
+            res.violation(WHAT_MAP, relation='identity', mesh=mg.mesh_json(coords, elements, ids, eids, values=nonlin, dims=3 if three_d else 2),
+                          observed=repr(e)[:200])
+            continue
         err = np.abs(got['f'].to_numpy() - src['f'].to_numpy())
         if not (got.index.equals(src.index) and np.all(err <= 1e-9 * (1 + np.abs(src['f'].to_numpy())))):
             res.violation(WHAT_MAP, relation='identity', mesh=mg.mesh_json(coords, elements, ids, eids, values=nonlin, dims=3 if three_d else 2),
@@ -444,9 +511,15 @@ def mapping_relations(res, rng, n, stats):
                            index=pd.Index(rng.sample(range(1, 1000), k), name='node_id'))
         if not three_d:
             lin, tgt = lin.drop(columns=['z']), tgt.drop(columns=['z'])
-        got = tgt.meshmapper.process(lin, 'f')
         want = np.array(mg.linear_values(pts, g, c))
         stats['map_linear'] = stats.get('map_linear', 0) + 1
+        try:
+            with time_limit():
+                got = tgt.meshmapper.process(lin, 'f')
+        except Exception as e:   # noqa: BLE001
+            res.violation(WHAT_MAP, relation='linear field at interior points', linear_field=dict(g=list(g), c=c), points=pts,
+                          mesh=mg.mesh_json(coords, elements, ids, eids, dims=3 if three_d else 2), observed=repr(e)[:200])
+            continue
         err = np.abs(got['f'].to_numpy() - want)
         if not (got.index.equals(tgt.index) and np.all(err <= 1e-9 * (1 + np.abs(want).max() + max(abs(x) for x in g) * 5))):
             res.violation(WHAT_MAP, relation='linear field at interior points', linear_field=dict(g=list(g), c=c), points=pts,
@@ -468,7 +541,8 @@ def surface_relations(res, rng, n, stats):
         stats['surface'] = stats.get('surface', 0) + 1
         mj = mg.mesh_json(coords, elements, ids, eids, id_map=kind, boundary_node_ids=sorted(ids[b] for b in boundary))
         try:
-            s = df.surface_3D.is_at_surface()
+            with time_limit():
+                s = df.surface_3D.is_at_surface()
         except Exception as e:   # noqa: BLE001
             res.violation(WHAT_SURF, mesh=mj, observed=repr(e)[:200])
             continue
@@ -576,12 +650,17 @@ def replay(res, rp):
             res.violation(what, mesh=m, observed=st if st != 'ok' else {str(k): x for k, x in out.items()})
     elif what == WHAT_HS:
         pairs = [tuple(x) for x in v['rows']]
-        out = run_hotspot(pairs, v['values'], v['limit_frac'])
-        spec = mg.hotspot_spec(pairs, v['values'], v['limit_frac'])
+        art = v.get('artefact_threshold')
+        try:
+            out = run_hotspot(pairs, v['values'], v['limit_frac'], art)
+        except Exception as e:   # noqa: BLE001
+            out = repr(e)
+        spec = mg.hotspot_spec(pairs, v['values'], 0.9 if v['limit_frac'] is None else v['limit_frac'], art)
         bad = out != spec
         print('replay: hotspot', out, 'expected', spec)
         if bad:
-            res.violation(what, rows=v['rows'], values=v['values'], limit_frac=v['limit_frac'], observed=out, expected=spec)
+            res.violation(what, rows=v['rows'], values=v['values'], limit_frac=v['limit_frac'], artefact_threshold=art,
+                          observed=out, expected=spec)
     if bad is None:
         run(res)
         return res.finish()
